@@ -25,7 +25,8 @@
 (*        md pm pr fz sc (peeked mode, prev_mode, prev_redundancy, frame_size,  *)
 (*        stream_channels of the first stream's decoder)                       *)
 (*  ctl   id op(1 reset, 2 set gain, 3 getter with NULL) v r g ld bw md pm pr fz sc *)
-(*  insp  h n Fs nf ns dns pr hl lb   packet-inspection functions (hl: lb valid) *)
+(*  insp  h n Fs nf ns dns pr lb   packet-inspection functions                 *)
+(*  mark  position marker written before inspection calls                     *)
 (***************************************************************************)
 EXTENDS DecCtl, Json, IOUtils, TLC
 
@@ -44,6 +45,9 @@ Pk(e) == [hdr |-> e.h, len |-> IF e.nul = 1 THEN 0 ELSE e.n, fill |-> 0]
 ResOf(e, m) == IF m.ty = 0 THEN DecodeRes(m.d, Pk(e), e.fs, e.fec)
                ELSE MsDecodeRes(m.d, m.N, Pk(e), e.fs, e.fec)
 
+\* the return values the property allows for this call
+Allowed(e, m, res) == IF m.ty = 0 THEN res.rets ELSE MsAllowedRets(m.d, m.N, Pk(e), e.fs, e.fec)
+
 (* Property obligations of a decode call (C01):                              *)
 (*  canaries intact, nothing modified beyond frame_size x channels;           *)
 (*  success exactly when the contract says so, with exactly the contract's    *)
@@ -53,21 +57,24 @@ ResOf(e, m) == IF m.ty = 0 THEN DecodeRes(m.d, Pk(e), e.fs, e.fec)
 PropOK(e, m, res) ==
   /\ e.can = 1
   /\ e.hw <= (IF e.fs > 0 THEN e.fs ELSE 0) * m.nch
-  /\ e.r \in res.rets
-  /\ res.ok => /\ 0 < e.r /\ e.r <= e.fs
-               /\ e.fin = 1
-               /\ e.ld = e.r
+  /\ e.r \in Allowed(e, m, res)
+  /\ e.r \notin DecErrors => /\ 0 < e.r /\ e.r <= e.fs
+                             /\ e.fin = 1
+                             /\ e.ld = e.r
 
 \* the control state as observed after the call
 Obs(e, d) == [d EXCEPT !.prevMode = e.pm, !.prevRedundancy = (e.pr # 0), !.mode = e.md, !.bw = e.bw,
                        !.frameSize = e.fz, !.streamCh = e.sc, !.lastDur = e.ld]
 
 ConfOK(e, m, res, obs) ==
+  /\ e.r \in res.rets
   /\ obs \in res.nexts
   /\ res.ok => /\ e.hw <= e.r * m.nch
                /\ (res.out = "zeros" /\ m.ty = 0) => e.z = 1     \* (other streams may carry audio)
 
-\* packet-inspection functions against Framing (stateless)
+\* packet-inspection functions against Framing (stateless): helper values exact, opus_packet_parse accepts
+\* exactly valid framing, opus_packet_has_lbrr returns a flag or a documented error (an error for an empty
+\* byte string, a flag for valid framing)
 InspOK(e) ==
   LET p == [hdr |-> e.h, len |-> e.n, fill |-> 0]
       r == Parse(p, FALSE) IN
@@ -75,25 +82,14 @@ InspOK(e) ==
   /\ e.ns = NbSamplesOf(p, e.Fs)
   /\ e.dns = e.ns
   /\ IF r.ok THEN e.pr = r.count ELSE e.pr \in DecErrors
-  /\ e.hl = 1 => /\ e.lb \in {0, 1} \cup DecErrors            \* opus_packet_has_lbrr: a flag or a documented error
-                 /\ r.ok => e.lb \in {0, 1}
-                 /\ e.n < 1 => e.lb \in DecErrors
+  /\ e.lb \in {0, 1} \cup DecErrors
+  /\ r.ok => e.lb \in {0, 1}
+  /\ e.n < 1 => e.lb \in DecErrors
 
-\* The value of opus_packet_has_lbrr (conformance).  RFC 6716 4.2.3/4.2.4: the SILK header bits are the
-\* first bits of the first frame: per channel one VAD flag per 20 ms SILK frame, then the LBRR flag (mid
-\* channel first).  CELT packets never carry LBRR; an empty first frame (DTX) has no flags.
-LbrrExpected(e) ==
-  LET p == [hdr |-> e.h, len |-> e.n, fill |-> 0]
-      r == Parse(p, FALSE)
-      toc == Byte(p, 1)
-      nsf == IF Dur48(toc) > 960 THEN Dur48(toc) \div 960 ELSE 1
-      b0 == Byte(p, r.off + 1)
-      bit(k) == (b0 \div (2 ^ k)) % 2 IN
-  IF e.n < 1 THEN e.lb
-  ELSE IF TocMode(toc) = MODE_CELT THEN 0
-  ELSE IF ~r.ok THEN e.lb
-  ELSE IF r.sizes[1] = 0 THEN 0
-  ELSE IF bit(7 - nsf) = 1 \/ (TocStereo(toc) /\ bit(6 - 2 * nsf) = 1) THEN 1 ELSE 0
+\* the value of opus_packet_has_lbrr (conformance with Framing!HasLbrrOf; which error code is free)
+LbrrConf(e) ==
+  LET x == HasLbrrOf([hdr |-> e.h, len |-> e.n, fill |-> 0]) IN
+  IF x < 0 THEN e.lb < 0 ELSE e.lb = x
 
 Drift(what) == nd' = nd + 1 /\ (nd >= MaxDriftPrints \/ PrintT(<<"DRIFT", l, what>>))
 NoDrift == nd' = nd
@@ -126,9 +122,8 @@ Step(e) ==
     [] e.k = "insp" ->
          IF ~InspOK(e) THEN Reject
          ELSE /\ l' = l + 1 /\ UNCHANGED st
-              /\ IF e.hl = 0 \/ e.lb = LbrrExpected(e) THEN NoDrift ELSE Drift("lbrr")
-    [] e.k = "probe" ->           \* opus_packet_has_lbrr on an empty / empty-first-frame packet returned
-         IF e.r \in {0, 1} \cup DecErrors THEN l' = l + 1 /\ UNCHANGED st /\ NoDrift ELSE Reject
+              /\ IF LbrrConf(e) THEN NoDrift ELSE Drift("lbrr")
+    [] e.k = "mark" -> l' = l + 1 /\ UNCHANGED st /\ NoDrift      \* position marker written before inspection calls
     [] OTHER -> Reject          \* "Hang", or anything the harness should not have written
 
 Init == l = 1 /\ st = <<>> /\ nd = 0
